@@ -42,6 +42,10 @@ def c01_runs(tier):
         add(1, 1, 0, 'q', p='s', bound=2, budget=300)
         add(2, 1, 0, 's', bound=2, budget=300)
         add(1, 1, 0, 's', t1='q', bound=2, budget=400)
+        # two workers, an external submission and a task that submits from a pool thread while ~ThreadPool is already
+        # draining, three deviations: a submission that lands after the destructor's first drain and is skipped by
+        # both exiting workers (the central-queue hint race) must still be run by the destructor
+        add(2, 32, 0, 'q', p='q', bound=3, budget=900)
         # ---- wider program families at bound 1
         for mult, poll in ((32, 0), (1, 1)):
             add(1, mult, poll, 'XX')
@@ -71,7 +75,7 @@ def c01_runs(tier):
     return runs
 
 
-reg('C01', level='model_checking', runs=c01_runs, quick_budget_s=400, thorough_budget_s=1200,
+reg('C01', level='model_checking', runs=c01_runs, quick_budget_s=400, thorough_budget_s=2000,
     technique='stateless model checking of the real ThreadPool: every interleaving (up to a deviation bound) of 1-2 external producer threads, an optional pool-thread producer, the workers and the destructor drain; per-functor invocation counters',
     level_text='Pools of 0, 1 and 2 threads, poolLoadMultiplier 1 and 32, signalling-wake and polling mode; producers run programs of <= 2 submissions over {schedule(f), schedule(f, ForceQueuingTag), scheduleBulk(k, gen) k=1..3}: every such program for one producer (programs are chosen inside the run by exhaustive data nondeterminism), single submissions and selected programs for two external producers, and a task running on a pool thread as a further producer; then T0 destroys the pool. Quick: every interleaving with <= 1 deviation; thorough: the wider program sets at bound 1, bound 2 on the smallest shapes (n=1 one producer, n=1 two producers, n=2 one producer) and bound 3 for n=1 with one producer. Oracle: each functor ran exactly once when ~ThreadPool returns and none starts afterwards; a functor that never runs leaves its counter at 0, a parked destructor is a deadlock verdict. Path markers (which thread ran the functor) must show inline execution by schedule and by scheduleBulk, execution by a worker from the central queue (single and bulk enqueue), inline execution on a pool thread, and the destructor\'s own drain.',
     level_note='SC interleavings; the locality and steal rings are not reachable through the three public ThreadPool entry points of the statement (only through task sets, see C02/C03/C08), so they stay empty here; TSan and ASan legs on two (thorough: four) small shapes.',
